@@ -52,6 +52,8 @@ struct Hist : HistBase {
       try { sb[i]->destroy_sandbox(); } catch (...) { if constexpr (IsVsbx) sb[i]->get_sandbox_impl()->force_release(); }
       live[i] = false;
     }
+    // instances whose creation failed late still hold their address slot
+    if constexpr (IsVsbx) for (int i = 0; i < NS; i++) sb[i]->get_sandbox_impl()->force_release();
   }
   // end of a history: every sandbox that is still created must be destroyable
   std::string finish() override
@@ -61,6 +63,7 @@ struct Hist : HistBase {
       try { sb[i]->destroy_sandbox(); } catch (const std::runtime_error&) { r = "abort"; if constexpr (IsVsbx) sb[i]->get_sandbox_impl()->force_release(); }
       live[i] = false;
     }
+    if constexpr (IsVsbx) for (int i = 0; i < NS; i++) sb[i]->get_sandbox_impl()->force_release();
     return r;
   }
   int fid(void* key) { for (int i = 0; i < NF; i++) if (key == reinterpret_cast<void*>(fns[i])) return i; return -1; }
